@@ -18,7 +18,8 @@ Clauses (each is a sentence of the property statement):
   signature-static   static parameters (name, kind, required-ness of non-variadic ones) == inspect.signature(function)
   signature-dynamic  dynamic parameters == inspect.signature(function) or == the bound view CPython gives through
               class attribute access (classmethod without `cls`)
-  bases       same resolved base-class paths (consumer API `Class.resolved_bases` semantics on both trees)
+  bases       same resolved base-class paths (consumer API `Class.resolved_bases` semantics on both trees; the subscript
+              of `Repo[int]` / `Generic[T]` is ignored: only the static agent could give it)
   docstring   same docstring value on modules, classes, functions (and property getters, which are functions in the
               source); an empty docstring equals no docstring
   alias       every imported class/function/module is an alias on both sides, reaching the same final target path
@@ -50,7 +51,9 @@ RULE = (
     "Hypothesis-generated importable packages (JSON model -> files): 1-5 modules incl. optional sub-package, acyclic "
     "intra-package imports (from/import/relative/as/wildcard) of classes, functions, modules and values, functions with all "
     "five parameter kinds/defaults/annotations, classes with instance/static/class methods, properties, cached properties, "
-    "nested classes, single and multiple inheritance inside and across modules, literal attributes, docstrings. "
+    "nested classes, single and multiple inheritance inside and across modules, generic classes (Generic[T], Protocol, Protocol[T] "
+    "with a module-level TypeVar; subscripted Repo[int]/Repo[T] and unsubscripted subclasses and their multi-base descendants), "
+    "partial default runs after a positional-only group, literal attributes, docstrings. "
     "non-trivial = >=2 modules with >=1 intra-package import and a class with >=2 method flavours; distinct = distinct model"
 )
 ASSUMPTIONS = [
@@ -64,7 +67,11 @@ ASSUMPTIONS = [
     "method flavour (staticmethod/classmethod/property/cached) is read from labels both agents spell identically; other labels, "
     "`async`, attribute values, annotations and line numbers are not compared",
     "an empty docstring is treated as no docstring; property getter docstrings count as function docstrings",
-    "base classes are compared after resolution through the loaded modules collection (Class.resolved_bases semantics)",
+    "base classes are compared after resolution through the loaded modules collection (Class.resolved_bases semantics): a subscripted "
+    "base `Repo[int]` / `Generic[T]` counts as the subscripted class (the inspector can never report the subscript); bases outside "
+    "the package (typing.Generic, typing.Protocol) are compared by the last path either tree reaches",
+    "`_abc_impl`, `_is_protocol`, `_is_runtime_protocol` (written by typing/abc into Protocol classes and their subclasses) are treated "
+    "like interpreter-provided dunders: ignored unless the source binds them",
 ]
 BUDGET_S = {"quick": 75.0, "thorough": 1100.0}
 SHRINK_MAX_EXAMPLES = 4000
@@ -180,6 +187,8 @@ def cpython_facts(case: dict, top: str, root: str) -> dict[str, dict]:
 
 # ----------------------------------------------------------------------------- Griffe summaries
 FLAVOURS = {"staticmethod", "classmethod", "property", "cached"}
+# set by typing.Protocol / abc.ABCMeta in the namespace of every Protocol class and of every subclass of one
+TYPING_SUNDERS = {"_abc_impl", "_is_protocol", "_is_runtime_protocol"}
 
 
 def _doc(obj) -> str | None:
@@ -200,16 +209,25 @@ def _flavour(labels) -> str:
 def _bases(cls) -> list[str]:
     from griffe import AliasResolutionError, CyclicAliasError
 
+    # Class.resolved_bases semantics: the canonical path of the base expression (a subscript `Repo[int]` / `Generic[T]`
+    # contributes the path of the subscripted class only: the inspector can never give the subscript, so it is ignored),
+    # resolved through the loaded collection. A base outside the loaded package (typing.Generic) cannot be resolved on
+    # either side: then the last path reached is compared.
     out = []
     for base in cls.bases:
+        base_path = base if isinstance(base, str) else base.canonical_path
         try:
-            base_path = base if isinstance(base, str) else base.canonical_path
             target = cls.modules_collection.get_member(base_path)
-            if target.is_alias:
-                target = target.final_target
-            out.append(target.path)
         except (AliasResolutionError, CyclicAliasError, KeyError):
-            out.append(f"unresolved({base})")
+            out.append(f"external({base_path})")
+            continue
+        if target.is_alias:
+            try:
+                target = target.final_target
+            except (AliasResolutionError, CyclicAliasError):
+                out.append(f"external({_chase(target)})")
+                continue
+        out.append(target.path)
     return out
 
 
@@ -299,8 +317,8 @@ def compare(path: str, s: dict, d: dict, scope_kind: str, src: dict, cpy: dict, 
     def relevant(names, side):
         out = set()
         for n in names:
-            if gen.is_dunder(n) and n not in sf["defined"]:
-                continue  # interpreter-provided dunder
+            if (gen.is_dunder(n) or n in TYPING_SUNDERS) and n not in sf["defined"]:
+                continue  # interpreter-provided dunder (or the typing/abc bookkeeping of Protocol classes and their subclasses)
             if side == "static" and n in sf["init_only"]:
                 continue  # instance attribute assigned in __init__
             out.add(n)
@@ -461,16 +479,6 @@ def run_shard(ctx) -> None:
     global _TMP
     _TMP = ctx.tmp  # removed by the runner
     gen.STEERED.clear()
-    # generation alone costs ~20 ms per case: once the wall-clock budget is exhausted the strategy returns a constant
-    # without drawing, so that the remaining examples of the Hypothesis run cost nothing (they are not evaluated)
-    import hypothesis.errors
-
-    try:
-        ctx.run_hypothesis(gen.cases(_feats(ctx.known), stop=ctx.out_of_budget), check_case, ctx.scale(450, 9000), describe=gen.describe)
-    except hypothesis.errors.HypothesisException:
-        # Hypothesis notices the strategy's early exit when it re-runs a choice sequence ("inconsistent data generation");
-        # that can only happen after the budget ran out, and then it simply ends the search
-        if not ctx.res.budget_exhausted:
-            raise
+    ctx.run_hypothesis(strategy(ctx), check_case, ctx.scale(450, 9000), describe=gen.describe)
     for slug, count in gen.STEERED.items():
         ctx.excluded(slug, count)
